@@ -362,7 +362,7 @@ Lemma rebuild_char rl y month ii' : 1 <= y <= 9999 -> rebuild rl ii_init y month
   (truthy (bynweekday rl) = false -> nwdaymask ii' = None) /\
   (truthy (byweekno rl) = true ->
    exists m, wnomask ii' = Some m /\
-     build_wnomask y (year_len y) (weekday_of_ord (jan1 y)) (wkst rl)
+     build_wnomask y (year_len y) (year_len (y + 1)) (weekday_of_ord (jan1 y)) (wkst rl)
                    (py_from T_WDAYMASK (weekday_of_ord (jan1 y))) (opt_list (byweekno rl)) = Ok m).
 Proof.
   intros Hy HR. split; [exact (rebuild_ii_for rl y month ii' Hy HR)|].
@@ -372,7 +372,7 @@ Proof.
   rewrite V. cbn [bind]. fold (jan1 y). rewrite !year_len_365.
   destruct (if year_len y =? 365 then _ else _) as [[[mm mdm] nmdm] mr].
   destruct (truthy (byweekno rl)) eqn:TW; cbn [negb].
-  - destruct (build_wnomask y (year_len y) (weekday_of_ord (jan1 y)) (wkst rl)
+  - destruct (build_wnomask y (year_len y) (year_len (y + 1)) (weekday_of_ord (jan1 y)) (wkst rl)
                 (py_from T_WDAYMASK (weekday_of_ord (jan1 y))) (opt_list (byweekno rl))) as [m|e] eqn:EB;
       cbn [bind]; [|discriminate].
     destruct (truthy (bynweekday rl)) eqn:TN; cbn [andb bind].
@@ -428,7 +428,7 @@ Qed.
 Theorem day_filter_correct_weekno_guarded : forall r rl y month ii i,
   normalize r = Ok rl -> spec_wf r = true -> r_byeaster r = None -> plain_only r = true ->
   all_opt (r_byweekno r) RRWeekFinal.weekno_safe = true ->
-  2 <= y <= 9999 -> rebuild rl ii_init y month = Ok ii -> 0 <= i < year_len y ->
+  1 <= y <= 9999 -> rebuild rl ii_init y month = Ok ii -> 0 <= i < year_len y ->
   day_rejected rl ii i = Ok (negb (day_ok r (jan1 y + i))).
 Proof.
   intros r rl y month ii i HN HW He Hp Hs Hy HR Hi.
@@ -463,7 +463,7 @@ Proof.
     { apply forallb_sort_set. exact Hs. }
     assert (Hk : 0 <= wkst rl <= 6).
     { rewrite Nwk. match goal with H : between 0 6 (r_wkst r) = true |- _ => unfold between in H end. lia. }
-    destruct (RRWeekTop.wnomask_correct_calendar y (wkst rl) (sort_set l) Hy Hk SAFE) as (m' & Em' & Lm & Pm).
+    destruct (RRWeekTop.wnomask_correct_calendar y (wkst rl) (sort_set l) Hk SAFE) as (m' & Em' & Lm & Pm).
     cbv zeta in Em'. rewrite Eb in Em'. injection Em' as <-.
     rewrite (py_nth_nth m i) by lia. cbn [bind].
     assert (U : RRWeekDefs.used_index (shape_of y) (wkst rl) i = true).
@@ -505,10 +505,11 @@ Proof.
   destruct (sortZ (h :: t)); [destruct M|reflexivity].
 Qed.
 
-Lemma rebuild_easter rl y month ii' : 1 <= y <= 9999 -> rebuild rl ii_init y month = Ok ii' ->
+Lemma rebuild_easter rl y month ii' : 1 <= y < 9999 -> rebuild rl ii_init y month = Ok ii' ->
   truthy (byeaster rl) = true ->
-  exists eo m, RRMasks.easter_ord y = Ok eo /\ eastermask ii' = Some m /\
-    build_eastermask (eo - jan1 y) (year_len y) (opt_list (byeaster rl)) = Ok m.
+  exists eo eo2 m, RRMasks.easter_ord y = Ok eo /\ RRMasks.easter_ord (y + 1) = Ok eo2 /\
+    eastermask ii' = Some m /\
+    build_eastermask (eo - jan1 y) (Some (eo2 - jan1 y)) (year_len y) (opt_list (byeaster rl)) = Ok m.
 Proof.
   intros Hy HR TE. revert HR. unfold rebuild.
   change (lastyear ii_init) with (@None Z). change (opt_neqb None y) with true. cbv iota.
@@ -519,9 +520,11 @@ Proof.
   match goal with |- bind ?r _ = _ -> _ => destruct r as [[nwd month']|e]; cbn [bind]; [|discriminate] end.
   rewrite TE. cbn [yearordinal yearlen].
   destruct (RRMasks.easter_ord y) as [eo|e]; cbn [bind]; [|discriminate].
-  destruct (build_eastermask (eo - jan1 y) (year_len y) (opt_list (byeaster rl))) as [m|e] eqn:EB;
+  unfold T_MAXYEAR. replace (y <? 9999) with true by lia.
+  destruct (RRMasks.easter_ord (y + 1)) as [eo2|e]; cbn [bind]; [|discriminate].
+  destruct (build_eastermask (eo - jan1 y) (Some (eo2 - jan1 y)) (year_len y) (opt_list (byeaster rl))) as [m|e] eqn:EB;
     cbn [bind]; [|discriminate].
-  intros E. inversion E; subst. cbn. exists eo, m. split; [reflexivity|split; [reflexivity|exact EB]].
+  intros E. inversion E; subst. cbn. exists eo, eo2, m. split; [reflexivity|split; [reflexivity|split; [reflexivity|exact EB]]].
 Qed.
 
 (* the final statement of layer 4 for the day-selecting parts BYMONTH, BYMONTHDAY, BYYEARDAY, plain
@@ -529,8 +532,8 @@ Qed.
 Theorem day_filter_correct_guarded : forall r rl y month ii i,
   normalize r = Ok rl -> spec_wf r = true -> plain_only r = true ->
   all_opt (r_byweekno r) RRWeekFinal.weekno_safe = true ->
-  (r_byeaster r = None \/ 1583 <= y <= 4099) ->
-  2 <= y <= 9999 -> rebuild rl ii_init y month = Ok ii -> 0 <= i < year_len y ->
+  (r_byeaster r = None \/ 1583 <= y <= 4098) ->
+  1 <= y <= 9999 -> rebuild rl ii_init y month = Ok ii -> 0 <= i < year_len y ->
   day_rejected rl ii i = Ok (negb (day_ok r (jan1 y + i))).
 Proof.
   intros r rl y month ii i HN HW Hp Hs He Hy HR Hi.
@@ -562,7 +565,7 @@ Proof.
     { apply forallb_sort_set. exact Hs. }
     assert (Hk : 0 <= wkst rl <= 6).
     { rewrite Nwk. match goal with H : between 0 6 (r_wkst r) = true |- _ => unfold between in H end. lia. }
-    destruct (RRWeekTop.wnomask_correct_calendar y (wkst rl) (sort_set l) Hy Hk SAFE) as (m' & Em' & Lm & Pm).
+    destruct (RRWeekTop.wnomask_correct_calendar y (wkst rl) (sort_set l) Hk SAFE) as (m' & Em' & Lm & Pm).
     cbv zeta in Em'. rewrite Eb in Em'. injection Em' as <-.
     rewrite (py_nth_nth m i) by lia. cbn [bind].
     assert (U : RRWeekDefs.used_index (shape_of y) (wkst rl) i = true).
@@ -583,17 +586,21 @@ Proof.
     { cbn [option_map truthy]. pose proof (sortZ_nonempty l) as SN. rewrite NE in SN.
       destruct (sortZ l); [discriminate SN|reflexivity]. }
     rewrite TT.
-    destruct (rebuild_easter rl y month ii ltac:(lia) HR ltac:(rewrite Nea; exact TT)) as (eo & m & Eo & Em & Eb).
+    destruct (rebuild_easter rl y month ii ltac:(lia) HR ltac:(rewrite Nea; exact TT))
+      as (eo & eo2 & m & Eo & Eo2 & Em & Eb).
     rewrite Em. rewrite Nea in Eb. cbn [option_map opt_list] in Eb.
-    destruct (RREasterThm.eastermask_correct_own_year y (sortZ l) He) as (eo' & m' & Eo' & Eb' & Pm).
+    destruct (RREasterThm.eastermask_correct_calendar y (sortZ l) ltac:(lia) ltac:(lia))
+      as (eo' & eo2' & m' & Eo' & Eo2' & Eb' & Pm).
     cbv zeta in Eb', Pm. fold (jan1 y) in Eb', Pm.
-    rewrite Eo in Eo'. injection Eo' as <-. rewrite Eb in Eb'. injection Eb' as <-.
+    rewrite Eo in Eo'. injection Eo' as <-. rewrite Eo2 in Eo2'. injection Eo2' as <-.
+    rewrite Eb in Eb'. injection Eb' as <-.
     assert (Lm : zlen m = year_len y + 7).
-    { destruct (RREasterThm.eastermask_fold_correct (eo - jan1 y) (year_len y) (sortZ l)
+    { destruct (RREasterThm.eastermask_fold_correct (eo - jan1 y) (Some (eo2 - jan1 y)) (year_len y) (sortZ l)
                   ltac:(unfold year_len; destruct (is_leap y); lia)) as (m2 & E2 & L2 & _).
       rewrite Eb in E2. injection E2 as <-. exact L2. }
     rewrite (py_nth_nth m i) by lia. cbn [bind].
-    specialize (Pm i ltac:(lia)). unfold RRWeekThm.nzb in Pm.
+    specialize (Pm i ltac:(lia)). replace (i <? year_len y) with true in Pm by lia.
+    unfold RRWeekThm.nzb in Pm.
     f_equal. cbn [in_opt]. rewrite <- (existsb_sortZ (easter_lambda y (jan1 y + i)) l).
     replace (nth (Z.to_nat i) m 0 =? 0) with (negb (negb (nth (Z.to_nat i) m 0 =? 0)))
       by apply negb_involutive.
@@ -785,8 +792,8 @@ Qed.
 Theorem day_filter_correct_monthly_nth_guarded : forall r rl y month ii i,
   normalize r = Ok rl -> spec_wf r = true -> r_freq r = MONTHLY -> truthy (bynweekday rl) = true ->
   all_opt (r_byweekno r) RRWeekFinal.weekno_safe = true ->
-  (r_byeaster r = None \/ 1583 <= y <= 4099) ->
-  2 <= y <= 9999 -> 1 <= month <= 12 -> rebuild rl ii_init y month = Ok ii ->
+  (r_byeaster r = None \/ 1583 <= y <= 4098) ->
+  1 <= y <= 9999 -> 1 <= month <= 12 -> rebuild rl ii_init y month = Ok ii ->
   dbm y month <= i < dbm y (month + 1) ->
   day_rejected rl ii i = Ok (negb (day_ok r (jan1 y + i))).
 Proof.
@@ -814,7 +821,7 @@ Proof.
     { apply forallb_sort_set. exact Hs. }
     assert (Hk : 0 <= wkst rl <= 6).
     { rewrite Nwk. match goal with H : between 0 6 (r_wkst r) = true |- _ => unfold between in H end. lia. }
-    destruct (RRWeekTop.wnomask_correct_calendar y (wkst rl) (sort_set l) Hy Hk SAFE) as (m' & Em' & Lm & Pm).
+    destruct (RRWeekTop.wnomask_correct_calendar y (wkst rl) (sort_set l) Hk SAFE) as (m' & Em' & Lm & Pm).
     cbv zeta in Em'. rewrite Eb in Em'. injection Em' as <-.
     rewrite (py_nth_nth m i) by lia. cbn [bind].
     assert (U : RRWeekDefs.used_index (shape_of y) (wkst rl) i = true).
@@ -835,17 +842,21 @@ Proof.
     { cbn [option_map truthy]. pose proof (sortZ_nonempty l) as SN. rewrite NE in SN.
       destruct (sortZ l); [discriminate SN|reflexivity]. }
     rewrite TT.
-    destruct (rebuild_easter rl y month ii ltac:(lia) HR ltac:(rewrite Nea; exact TT)) as (eo & m & Eo & Em & Eb).
+    destruct (rebuild_easter rl y month ii ltac:(lia) HR ltac:(rewrite Nea; exact TT))
+      as (eo & eo2 & m & Eo & Eo2 & Em & Eb).
     rewrite Em. rewrite Nea in Eb. cbn [option_map opt_list] in Eb.
-    destruct (RREasterThm.eastermask_correct_own_year y (sortZ l) He) as (eo' & m' & Eo' & Eb' & Pm).
+    destruct (RREasterThm.eastermask_correct_calendar y (sortZ l) ltac:(lia) ltac:(lia))
+      as (eo' & eo2' & m' & Eo' & Eo2' & Eb' & Pm).
     cbv zeta in Eb', Pm. fold (jan1 y) in Eb', Pm.
-    rewrite Eo in Eo'. injection Eo' as <-. rewrite Eb in Eb'. injection Eb' as <-.
+    rewrite Eo in Eo'. injection Eo' as <-. rewrite Eo2 in Eo2'. injection Eo2' as <-.
+    rewrite Eb in Eb'. injection Eb' as <-.
     assert (Lm : zlen m = year_len y + 7).
-    { destruct (RREasterThm.eastermask_fold_correct (eo - jan1 y) (year_len y) (sortZ l)
+    { destruct (RREasterThm.eastermask_fold_correct (eo - jan1 y) (Some (eo2 - jan1 y)) (year_len y) (sortZ l)
                   ltac:(unfold year_len; destruct (is_leap y); lia)) as (m2 & E2 & L2 & _).
       rewrite Eb in E2. injection E2 as <-. exact L2. }
     rewrite (py_nth_nth m i) by lia. cbn [bind].
-    specialize (Pm i ltac:(lia)). unfold RRWeekThm.nzb in Pm.
+    specialize (Pm i ltac:(lia)). replace (i <? year_len y) with true in Pm by lia.
+    unfold RRWeekThm.nzb in Pm.
     f_equal. cbn [in_opt]. rewrite <- (existsb_sortZ (easter_lambda y (jan1 y + i)) l).
     replace (nth (Z.to_nat i) m 0 =? 0) with (negb (negb (nth (Z.to_nat i) m 0 =? 0)))
       by apply negb_involutive.
@@ -970,8 +981,8 @@ Theorem day_filter_correct_yearly_nth_guarded : forall r rl y month ii i,
   normalize r = Ok rl -> spec_wf r = true -> r_freq r = YEARLY -> r_bymonth r = None ->
   truthy (bynweekday rl) = true ->
   all_opt (r_byweekno r) RRWeekFinal.weekno_safe = true ->
-  (r_byeaster r = None \/ 1583 <= y <= 4099) ->
-  2 <= y <= 9999 -> rebuild rl ii_init y month = Ok ii -> 0 <= i < year_len y ->
+  (r_byeaster r = None \/ 1583 <= y <= 4098) ->
+  1 <= y <= 9999 -> rebuild rl ii_init y month = Ok ii -> 0 <= i < year_len y ->
   day_rejected rl ii i = Ok (negb (day_ok r (jan1 y + i))).
 Proof.
   intros r rl y month ii i HN HW Hfr Hbm TN Hs He Hy HR Hi.
@@ -994,7 +1005,7 @@ Proof.
     { apply forallb_sort_set. exact Hs. }
     assert (Hk : 0 <= wkst rl <= 6).
     { rewrite Nwk. match goal with H : between 0 6 (r_wkst r) = true |- _ => unfold between in H end. lia. }
-    destruct (RRWeekTop.wnomask_correct_calendar y (wkst rl) (sort_set l) Hy Hk SAFE) as (m' & Em' & Lm & Pm).
+    destruct (RRWeekTop.wnomask_correct_calendar y (wkst rl) (sort_set l) Hk SAFE) as (m' & Em' & Lm & Pm).
     cbv zeta in Em'. rewrite Eb in Em'. injection Em' as <-.
     rewrite (py_nth_nth m i) by lia. cbn [bind].
     assert (U : RRWeekDefs.used_index (shape_of y) (wkst rl) i = true).
@@ -1015,17 +1026,21 @@ Proof.
     { cbn [option_map truthy]. pose proof (sortZ_nonempty l) as SN. rewrite NE in SN.
       destruct (sortZ l); [discriminate SN|reflexivity]. }
     rewrite TT.
-    destruct (rebuild_easter rl y month ii ltac:(lia) HR ltac:(rewrite Nea; exact TT)) as (eo & m & Eo & Em & Eb).
+    destruct (rebuild_easter rl y month ii ltac:(lia) HR ltac:(rewrite Nea; exact TT))
+      as (eo & eo2 & m & Eo & Eo2 & Em & Eb).
     rewrite Em. rewrite Nea in Eb. cbn [option_map opt_list] in Eb.
-    destruct (RREasterThm.eastermask_correct_own_year y (sortZ l) He) as (eo' & m' & Eo' & Eb' & Pm).
+    destruct (RREasterThm.eastermask_correct_calendar y (sortZ l) ltac:(lia) ltac:(lia))
+      as (eo' & eo2' & m' & Eo' & Eo2' & Eb' & Pm).
     cbv zeta in Eb', Pm. fold (jan1 y) in Eb', Pm.
-    rewrite Eo in Eo'. injection Eo' as <-. rewrite Eb in Eb'. injection Eb' as <-.
+    rewrite Eo in Eo'. injection Eo' as <-. rewrite Eo2 in Eo2'. injection Eo2' as <-.
+    rewrite Eb in Eb'. injection Eb' as <-.
     assert (Lm : zlen m = year_len y + 7).
-    { destruct (RREasterThm.eastermask_fold_correct (eo - jan1 y) (year_len y) (sortZ l)
+    { destruct (RREasterThm.eastermask_fold_correct (eo - jan1 y) (Some (eo2 - jan1 y)) (year_len y) (sortZ l)
                   ltac:(unfold year_len; destruct (is_leap y); lia)) as (m2 & E2 & L2 & _).
       rewrite Eb in E2. injection E2 as <-. exact L2. }
     rewrite (py_nth_nth m i) by lia. cbn [bind].
-    specialize (Pm i ltac:(lia)). unfold RRWeekThm.nzb in Pm.
+    specialize (Pm i ltac:(lia)). replace (i <? year_len y) with true in Pm by lia.
+    unfold RRWeekThm.nzb in Pm.
     f_equal. cbn [in_opt]. rewrite <- (existsb_sortZ (easter_lambda y (jan1 y + i)) l).
     replace (nth (Z.to_nat i) m 0 =? 0) with (negb (negb (nth (Z.to_nat i) m 0 =? 0)))
       by apply negb_involutive.
